@@ -916,8 +916,13 @@ func main() {
 		}
 		if sc.ViaHandle {
 			// connection-level scenarios: deviation bound 2, split over 8 workers by first deviation
-			for sh := 0; sh < 8; sh++ {
-				b, _ := json.Marshal(task{Mode: "explore", Scenario: sc.ID, Prop: prop, Bound: 2, Max: maxSched * 2, Shard: sh, Of: 8})
+			// (thorough: bound 3 for scenarios with at most two connections)
+			db, shards, cap := 2, 8, maxSched*2
+			if tier == "thorough" && len(sc.Threads) <= 2 {
+				db, shards, cap = 3, 32, 4000000
+			}
+			for sh := 0; sh < shards; sh++ {
+				b, _ := json.Marshal(task{Mode: "explore", Scenario: sc.ID, Prop: prop, Bound: db, Max: cap, Shard: sh, Of: shards})
 				tasks = append(tasks, b)
 			}
 			continue
